@@ -62,3 +62,7 @@ func VerifStackSnapshot(s *ValueStack) (objects []interface{}, ints []int, varia
 
 // VerifMaxFuncLocals is the per-frame local slot count.
 const VerifMaxFuncLocals = maxFuncLocals
+
+// VerifSetVariadicLen overwrites the stack's variadicLen register (state that survives between calls
+// evaluated with the same EvalEnv).
+func VerifSetVariadicLen(s *ValueStack, n int) { s.variadicLen = n }
